@@ -1,11 +1,17 @@
 """C04 -- identity map: one live instance per row per connection on every access path."""
 from tools.props import ormlib as L
-from tools.props.ormlib import run_impl, SOURCES  # noqa (plugin interface)
+from tools.props.ormlib import SOURCES  # noqa (plugin interface)
 
 SOURCES = SOURCES + ['sqlobject/joins.py']
 COQ_HEADER = L.COQ_HEADER_PATHS
 CORR_VO = 'Corr/OrmPaths.vo'
-coq_case = L.coq_pcase
+
+
+def coq_case(case, obs):
+    if case.get('rel'):
+        # judged by the oracle only (see the relation stream below); an empty history agrees trivially
+        return '{| pc_cfg := {| doCache := true; cullFreq := 100; cullFrac := 2 |}; pc_steps := [] |}'
+    return L.coq_pcase(case, obs)
 
 PROP = 'C04'
 PROPS_VO = 'Props/C04.vo'
@@ -66,11 +72,242 @@ def corpus():
 
 def generate(rng, tier):
     n = 2000 if tier == 'quick' else 20000
-    return [L.gen_history(rng, PROFILE, rng.randint(3, 45)) for _ in range(n)]
+    m = 600 if tier == 'quick' else 6000
+    return [L.gen_history(rng, PROFILE, rng.randint(3, 45)) for _ in range(n)] + [gen_rel(rng) for _ in range(m)]
 
 
 def search_cases(rng, tier):
-    return [L.gen_history(rng, PROFILE, rng.randint(3, 60)) for _ in range(1500)]
+    return [L.gen_history(rng, PROFILE, rng.randint(3, 60)) for _ in range(1500)] + [gen_rel(rng) for _ in range(500)]
+
+
+# ------------------------------------------------------------------ relation stream: real ForeignKey / join descriptors, three
+# connection modes.  Judged by the identity oracle on the implementation only (Model/OrmPaths.v models the funnel these
+# accessors share; the descriptors' glue -- refColumn keys, SingleJoin, RelatedJoin, per-instance connections -- is exercised here).
+RCLASSES = ['VcTeam', 'VcPlayer', 'VcTag', 'VcCaptain']
+RATTRS = {1: ['team', 'home'], 3: ['team']}                       # foreign-key attributes by class index
+RJOINS = {0: ['members', 'locals', 'captain'], 1: ['tags'], 2: ['players']}
+_rcls = None
+_rconn = {}
+
+
+def rclasses():
+    global _rcls
+    if _rcls is None:
+        from sqlobject import SQLObject, IntCol, ForeignKey, MultipleJoin, RelatedJoin, SingleJoin
+
+        class VcTeam(SQLObject):
+            code = IntCol(alternateID=True)
+            members = MultipleJoin('VcPlayer', joinColumn='team_id')
+            locals = MultipleJoin('VcPlayer', joinColumn='home_id')
+            captain = SingleJoin('VcCaptain', joinColumn='team_id')
+
+            def __len__(self):          # a falsy row object (see ormlib)
+                return 0
+
+        class VcPlayer(SQLObject):
+            u = IntCol(alternateID=True)
+            team = ForeignKey('VcTeam', default=None)
+            home = ForeignKey('VcTeam', refColumn='code', default=None)      # references VcTeam.code, not the id
+            tags = RelatedJoin('VcTag')
+
+        class VcTag(SQLObject):
+            u = IntCol(alternateID=True)
+            players = RelatedJoin('VcPlayer')
+
+        class VcCaptain(SQLObject):
+            u = IntCol(alternateID=True)
+            team = ForeignKey('VcTeam', default=None)
+        _rcls = [VcTeam, VcPlayer, VcTag, VcCaptain]
+    return _rcls
+
+
+def gen_rel(rng):
+    mode = rng.choice(['default', 'other', 'other', 'txn'])
+    ops, nslots, live, nid, nu = [], 0, {0: [], 1: [], 2: [], 3: []}, {0: 0, 1: 0, 2: 0, 3: 0}, [0]
+    for _ in range(rng.randint(4, 30)):
+        r = rng.random()
+        k = rng.choice([0, 0, 1, 1, 1, 2, 3])
+        allive = [(kk, h) for kk in live for h in live[kk]]
+        if r < 0.28 or not allive:
+            nu[0] += 1
+            f = {}
+            if k == 0:
+                f['code'] = 10 * (nid[0] + 1)
+            if k in (1, 3) and nid[0] and rng.random() < 0.8:
+                f['team'] = rng.randint(1, nid[0])
+            if k == 1 and nid[0] and rng.random() < 0.7:
+                f['home'] = 10 * rng.randint(1, nid[0])             # VcTeam.code of team i is 10*i
+            ops.append(['rcreate', k, nu[0], f])
+            nid[k] += 1
+            live[k].append(nslots)
+            nslots += 1
+        elif r < 0.40 and nid[k]:
+            ops.append(['rget', k, rng.randint(1, nid[k])])
+            live[k].append(nslots)
+            nslots += 1
+        elif r < 0.48:
+            ops.append(['rselect', k])
+        elif r < 0.66:
+            cand = [(kk, h) for kk, h in allive if kk in RATTRS]
+            if not cand:
+                continue
+            kk, h = rng.choice(cand)
+            ops.append(['rfk', h, rng.choice(RATTRS[kk])])
+            live[0].append(nslots)                                   # the target is a team (or nothing)
+            nslots += 1
+        elif r < 0.84:
+            cand = [(kk, h) for kk, h in allive if kk in RJOINS]
+            if not cand:
+                continue
+            kk, h = rng.choice(cand)
+            ops.append(['rjoin', h, rng.choice(RJOINS[kk])])
+        elif r < 0.90 and live[1] and live[2]:
+            ops.append(['rlink', rng.choice(live[1]), rng.choice(live[2])])
+        elif r < 0.96:
+            kk, h = rng.choice(allive)
+            ops.append(['rdrop', h])
+            live[kk].remove(h)
+        else:
+            ops.append(['rcull', k])
+    return {'rel': True, 'mode': mode, 'cfg': {'cache': rng.random() < 0.7, 'freq': rng.choice([2, 3, 5, 100]), 'frac': rng.choice([1, 2, 3])},
+            'ops': ops}
+
+
+def run_rel(case):
+    import gc
+    from sqlobject.sqlite.sqliteconnection import SQLiteConnection
+    from sqlobject.cache import CacheSet
+    cls = rclasses()
+    key = bool(case['cfg']['cache'])
+    if key not in _rconn:
+        decoy = SQLiteConnection(':memory:')
+        main = SQLiteConnection(':memory:', cache=key)
+        for c in cls:
+            c._connection = decoy
+            c.createTable()
+            c.createTable(connection=main)
+        _rconn[key] = (decoy, main)
+    decoy, main = _rconn[key]
+    for conn in (decoy, main):
+        raw = conn.getConnection()
+        cur = raw.cursor()
+        for t in ['vc_team', 'vc_player', 'vc_tag', 'vc_captain', 'vc_player_vc_tag', 'sqlite_sequence']:
+            cur.execute('DELETE FROM %s' % t)
+        cur.close()
+        conn.releaseConnection(raw)
+        conn.cache = CacheSet(cache=conn.doCache)
+        conn.cache.kw.update(cullFrequency=case['cfg']['freq'], cullFraction=case['cfg']['frac'])
+    mode = case['mode']
+    if mode == 'default':
+        use, kw = main, {}
+        for c in cls:
+            c._connection = main
+    else:
+        for c in cls:
+            c._connection = decoy
+        # decoy rows with the same ids: anything resolved on the class's default connection is a different object
+        for i in range(1, 7):
+            cls[0](code=10 * i)
+            cls[1](u=1000 + i, team=i, home=10 * i)
+            cls[2](u=2000 + i)
+            cls[3](u=3000 + i, team=i)
+        use = main.transaction() if mode == 'txn' else main
+        kw = {'connection': use}
+    slots, out = [], []
+
+    def token(o):
+        for i, x in enumerate(slots):
+            if x is o:
+                return i
+        return None
+
+    def desc(o):
+        return [cls.index(type(o)), o.id, token(o), o._connection is use]
+    try:
+        for op in case['ops']:
+            t = op[0]
+            res, exc = [], None
+            try:
+                if t == 'rcreate':
+                    k, u, f = op[1], op[2], dict(op[3])
+                    o = cls[k](**dict(f, **kw)) if k == 0 else cls[k](u=u, **dict(f, **kw))
+                    res = [desc(o)]
+                    slots.append(o)
+                elif t == 'rget':
+                    slots.append(None)
+                    o = cls[op[1]].get(op[2], **kw)
+                    res = [desc(o)]
+                    slots[-1] = o
+                elif t == 'rselect':
+                    objs = list(cls[op[1]].select(orderBy='id', **kw))
+                    res = [desc(o) for o in objs]
+                    del objs
+                elif t == 'rfk':
+                    slots.append(None)
+                    src = slots[op[1]] if op[1] < len(slots) else None
+                    o = getattr(src, op[2]) if src is not None and hasattr(type(src), op[2]) else None
+                    if o is not None:
+                        res = [desc(o)]
+                        slots[-1] = o
+                elif t == 'rjoin':
+                    src = slots[op[1]] if op[1] < len(slots) else None
+                    v = getattr(src, op[2]) if src is not None and hasattr(type(src), op[2]) else []
+                    objs = [] if v is None else (list(v) if isinstance(v, (list, tuple)) else [v])
+                    res = [desc(o) for o in objs]
+                    del objs, v
+                elif t == 'rlink':
+                    a = slots[op[1]] if op[1] < len(slots) else None
+                    b = slots[op[2]] if op[2] < len(slots) else None
+                    if a is not None and b is not None and type(a) is cls[1] and type(b) is cls[2]:
+                        a.addVcTag(b)
+                elif t == 'rdrop':
+                    if op[1] < len(slots):
+                        slots[op[1]] = None
+                elif t == 'rcull':
+                    f = use.cache.caches.get(cls[op[1]].__name__) if hasattr(use, 'cache') else None
+                    if f is not None and f.doCache:
+                        f.cull()
+            except Exception as e:  # noqa
+                exc = type(e).__name__
+                gc.collect(0)
+            out.append({'res': res, 'exc': exc, 'held': [None if o is None else [cls.index(type(o)), o.id] for o in slots]})
+    finally:
+        slots[:] = []
+        if mode == 'txn':
+            try:
+                use.rollback()
+            except Exception:  # noqa
+                pass
+        for conn in (decoy, main):
+            conn.cache.clear()
+    return {'rsteps': out}
+
+
+def rel_failures(case, obs):
+    prev = []
+    for n, (op, st) in enumerate(zip(case['ops'], obs['rsteps'])):
+        for k, i, tok, bound in st['res']:
+            held = [j for j, v in enumerate(prev) if v is not None and v[0] == k and v[1] == i]
+            why = None
+            if not bound:
+                why = 'an instance of %s/%d bound to ANOTHER connection was handed out' % (RCLASSES[k], i)
+            elif held and tok not in held:
+                why = 'a second instance of row %s/%d was handed out while the application still holds one (slots %s)' % (RCLASSES[k], i, held)
+            if why:
+                yield {'step': n, 'op': op, 'what': why, 'row': [k, i], 'mode': case['mode'], 'cache': case['cfg']['cache'], 'rel': True}
+        if st['exc'] and not (op[0] in ('rget', 'rfk') and st['exc'] == 'SQLObjectNotFound'):
+            yield {'step': n, 'op': op, 'what': 'operation raised %s' % st['exc'], 'mode': case['mode'], 'rel': True}
+        prev = st['held']
+
+
+def run_impl(cases):
+    res = []
+    for c in cases:
+        try:
+            res.append(run_rel(c) if c.get('rel') else {'steps': L.run_history(c)})
+        except Exception as e:  # noqa
+            res.append({'crash': '%s: %s' % (type(e).__name__, e)})
+    return res
 
 
 identities = L.identities
@@ -105,6 +342,10 @@ def oracle(case, obs):
 
 
 def failures(case, obs):
+    if case.get('rel'):
+        for f in rel_failures(case, obs):
+            yield f
+        return
     ident = identities(case, obs)
     resurrected = set()
     for info in L.Walk(case, obs):
@@ -137,6 +378,13 @@ def classify(case, obs, f):
 
 
 def nontrivial(case, obs):
+    if case.get('rel'):
+        prev = []
+        for st in obs['rsteps']:
+            if any(any(v is not None and v[0] == k and v[1] == i for v in prev) for k, i, _t, _b in st['res']):
+                return True
+            prev = st['held']
+        return False
     for info in L.Walk(case, obs):
         for (k, i, tok) in returned_objects(info):
             if any(v is not None and v[0] == k and v[1] == i for v in info['prev']['slots']):
